@@ -8,6 +8,7 @@ package main
 // (output file of pass 1 is the input file of pass 2).
 
 import (
+	"encoding/base64"
 	"fmt"
 	"os"
 	"path/filepath"
@@ -297,8 +298,12 @@ func c19CLI(c *Ctx, name string, lines []string, fsets []Flags) {
 			continue // four groups of workers share the flag sets; every worker has its own slice of the corpus
 		}
 		o1, o2 := filepath.Join(dir, "pass1.log"), filepath.Join(dir, "pass2.log")
-		os.Remove(o1)
-		os.Remove(o2)
+		// the state a working directory is in after earlier use: longer files at both output paths and a valid key
+		// file at the default key location (neither pass asks for encryption)
+		stale := []byte(strings.Repeat("{\"stale\":\"line of an earlier run\"}\n", (4*len(strings.Join(lines, ""))+400000)/40))
+		os.WriteFile(o1, stale, 0o644)
+		os.WriteFile(o2, stale, 0o644)
+		os.WriteFile(filepath.Join(dir, "anonymongo.enc.key"), []byte(base64.StdEncoding.EncodeToString(harnessKey)), 0o600)
 		args := append([]string{"redact", in, "--outputFile", o1}, fl.CLIArgs("")...)
 		r1, err := runCLI(CLIRun{Bin: c.CLI, Args: args, Dir: dir})
 		if err != nil {
